@@ -46,21 +46,24 @@ Theorem C12_status_directive_error_gets_body :
 Proof. exact status_rule_error. Qed.
 Print Assumptions C12_status_directive_error_gets_body.
 
-(* A panic before anything was written is contained for EVERY subset of the directives: the
-   client receives 500 (once) with the error body: errors' page for 500 if configured, the
-   panic dump under `errors visible`, else the plain text. *)
+(* A panic before anything was written is contained for EVERY subset of the directives and
+   EVERY value [pv] the handler panics with (a string, an error, a runtime error, a nil
+   dereference, a custom type, nil, http.ErrAbortHandler - the sentinel is NOT handed on to
+   net/http, which would drop the connection without a response): the client receives 500
+   (once) with the error body: errors' page for 500 if configured, the panic dump under
+   `errors visible`, else the plain text. *)
 Theorem C12_panic_before_write_gets_500 :
-  forall et c path ae ops rest ret err,
+  forall et c path ae ops pv rest ret err,
   forallb set_ok ops = true -> redir_hit c path = false -> status_rule c path = None -> internal_hit c path = false ->
-  let x := serve et c path ae (ops ++ OPanic :: rest) ret err in
+  let x := serve et c path ae (ops ++ OPanic pv :: rest) ret err in
   cm x = Some 500 /\ sup x = 0%nat /\
   view x = (false, match c_errors c with
                    | EDebug => PANIC_MARK
                    | _ => expected_error_body et c path 500 false
                    end).
 Proof.
-  intros et c path ae ops rest ret err Hs Hrd Hr Hit. rewrite <- (panic_body_spec et c path).
-  exact (panic_before_write_500 et c path ae ops rest ret err Hs Hrd Hr Hit).
+  intros et c path ae ops pv rest ret err Hs Hrd Hr Hit. rewrite <- (panic_body_spec et c path).
+  exact (panic_before_write_500 et c path ae ops pv rest ret err Hs Hrd Hr Hit).
 Qed.
 Print Assumptions C12_panic_before_write_gets_500.
 
@@ -174,29 +177,29 @@ Print Assumptions C12_mime_transparent_refuted.
    - templates was buffering: nothing had reached the connection; the buffered response is
      dropped and the request ends exactly like a panic before writing: 500 once, error body. *)
 Theorem C12_panic_after_write_contained :
-  forall et c path ae sets s ws rest ret err,
+  forall et c path ae sets s ws pv rest ret err,
   forallb set_ok sets = true -> redir_hit c path = false -> status_rule c path = None -> internal_hit c path = false ->
   valid_code s = true -> bodyless s = false ->
-  let x := serve et c path ae (sets ++ OWh s :: map wop_op ws ++ OPanic :: rest) ret err in
+  let x := serve et c path ae (sets ++ OWh s :: map wop_op ws ++ OPanic pv :: rest) ret err in
   (should_buffer (tmode_of c path) (hs_fun sets []) = false ->
      cm x = Some s /\ sup x = panic_sup c /\ (sup x <= 1)%nat /\ view x = (false, wbody ws ++ panic_body et c)) /\
   (should_buffer (tmode_of c path) (hs_fun sets []) = true ->
      cm x = Some 500 /\ sup x = 0%nat /\ view x = (false, panic_body et c)).
 Proof.
-  intros et c path ae sets s ws rest ret err Hs Hrd Hr Hit Hv Hb. cbv zeta. split; intro Hsb.
-  - destruct (panic_after_write_streamed et c path ae sets s ws rest ret err Hs Hrd Hr Hit Hv Hb Hsb) as (A & B & C).
+  intros et c path ae sets s ws pv rest ret err Hs Hrd Hr Hit Hv Hb. cbv zeta. split; intro Hsb.
+  - destruct (panic_after_write_streamed et c path ae sets s ws pv rest ret err Hs Hrd Hr Hit Hv Hb Hsb) as (A & B & C).
     repeat split; try assumption. rewrite B. unfold panic_sup. destruct (errors_on c && c_header c); auto.
-  - exact (panic_after_write_buffered et c path ae sets s ws rest ret err Hs Hrd Hr Hit Hsb).
+  - exact (panic_after_write_buffered et c path ae sets s ws pv rest ret err Hs Hrd Hr Hit Hsb).
 Qed.
 Print Assumptions C12_panic_after_write_contained.
 
 Example C12_panic_after_write_contained_nonvacuous :
   let c := {| c_reqid := false; c_limits := false; c_log := true; c_rewrite := false; c_gzip := true; c_header := false;
               c_errors := EPages [(500, Some (bs "<page>"))] None; c_redir := true; c_status := None; c_mime := true; c_internal := true; c_templates := true |} in
-  (let x := serve (fun _ => bs "text") c (bs "/x.txt") true ([] ++ OWh 201 :: map wop_op [WWr (bs "he"); WFl; WWr (bs "llo")] ++ OPanic :: [OWr (bs "never")]) 0 false in
+  (let x := serve (fun _ => bs "text") c (bs "/x.txt") true ([] ++ OWh 201 :: map wop_op [WWr (bs "he"); WFl; WWr (bs "llo")] ++ OPanic PAbort :: [OWr (bs "never")]) 0 false in
    should_buffer (tmode_of c (bs "/x.txt")) (hs_fun [] []) = false /\
    cm x = Some 201 /\ sup x = 1%nat /\ view x = (false, bs "hello<page>")) /\
-  (let x := serve (fun _ => bs "text") c (bs "/x.html") true ([] ++ OWh 201 :: map wop_op [WWr (bs "hello")] ++ OPanic :: []) 0 false in
+  (let x := serve (fun _ => bs "text") c (bs "/x.html") true ([] ++ OWh 201 :: map wop_op [WWr (bs "hello")] ++ OPanic PRuntime :: []) 0 false in
    should_buffer (tmode_of c (bs "/x.html")) (hs_fun [] []) = true /\
    cm x = Some 500 /\ sup x = 0%nat /\ view x = (false, bs "<page>")).
 Proof. vm_compute. repeat split; reflexivity. Qed.
@@ -232,7 +235,7 @@ Example C12_requests_independent_nonvacuous :
   let c := {| c_reqid := false; c_limits := false; c_log := false; c_rewrite := false; c_gzip := true; c_header := false;
               c_errors := ENone; c_redir := false; c_status := None; c_mime := false; c_internal := false; c_templates := true |} in
   let q := {| q_path := bs "/x.html"; q_ae := true; q_blen := 0%N; q_rd := None;
-              q_ops := [OWr (bs "left behind"); OPanic]; q_ret := 0; q_err := false |} in
+              q_ops := [OWr (bs "left behind"); OPanic PString]; q_ret := 0; q_err := false |} in
   buf_pool (srv_after (fun _ => []) c srv0 [q]) = [bs "left behind"].
 Proof. vm_compute. reflexivity. Qed.
 
@@ -262,7 +265,7 @@ Example C12_single_commit_all_nonvacuous :
               c_errors := EDebug; c_redir := true; c_status := Some 204; c_mime := true; c_internal := true; c_templates := true |} in
   handler_contract ops 0 = true /\ panics_after_write ops = false /\ status_ok c = true /\
   handler_contract [OSet K_CT V_HTML; OWh 204; OWr (bs "x")] 204 = true /\
-  handler_contract [OSet K_CT V_HTML; OPanic; OWh 0] 7 = true /\ handler_contract [] 999 = true.
+  handler_contract [OSet K_CT V_HTML; OPanic PNil; OWh 0] 7 = true /\ handler_contract [] 999 = true.
 Proof. vm_compute. repeat split; reflexivity. Qed.
 
 (* Outside the contract the statement is false: a handler that calls WriteHeader twice, or
